@@ -693,6 +693,36 @@ Section Fib.
       rewrite Hlen, Hc in H. simpl in H. injection H as <- _. simpl. exact Hd.
   Qed.
 
+  (** the package's [verify()] (transcribed as [f_verify]) answers true *)
+  Lemma ft_verify_ok n t :
+    fgood t -> length (ft_entries t) <= n -> ft_verify K V cmp (max_degree n) t = true.
+  Proof.
+    induction t as [k v d cs IH] using ftree_ind'. intros Hg Hsz.
+    inversion Hg as [? ? ? ? Hk Hc Hw Hdeg]; subst. simpl in Hsz.
+    assert (Hdd : Forall (fun c => ft_degree K V c <= d) cs).
+    { apply Forall_forall. intros c Hin. apply (in_map (ft_degree K V)) in Hin.
+      rewrite Hdeg in Hin. apply in_rev, in_seq in Hin. lia. }
+    assert (Hss : Forall (fun c => length (ft_entries c) <= n) cs).
+    { apply Forall_forall. intros c Hin. pose proof (flat_map_length_in ft_entries c cs Hin). lia. }
+    simpl. apply andb_true_iff. split.
+    - apply Nat.leb_le. apply Nat.lt_le_incl, maxdeg_ok. unfold fentries in Hw. lia.
+    - clear Hg Hw Hdeg Hsz.
+      induction cs as [|c cs IHcs]; [reflexivity|].
+      inversion IH; inversion Hk; inversion Hc; inversion Hdd; inversion Hss; subst.
+      repeat (apply andb_true_iff; split); auto.
+      + apply negb_true_iff. rewrite Z.gtb_ltb. apply Z.ltb_ge. assumption.
+      + now apply Nat.leb_le.
+  Qed.
+
+  Lemma f_verify_ok h : finv h -> f_verify K V cmp h = true.
+  Proof.
+    intros (Hg & Hn & Hm). unfold f_verify. destruct (f_ring K V h) as [|e rest] eqn:Er; [reflexivity|].
+    apply andb_true_iff. split.
+    - apply forallb_forall. intros t Ht. rewrite Forall_forall in Hg. apply ft_verify_ok; [auto|].
+      rewrite Hn. apply (flat_map_length_in ft_entries). exact Ht.
+    - apply forallb_forall. intros t Ht. apply Z.leb_le. now apply Hm.
+  Qed.
+
   Lemma f_act_ok h a :
     finv h -> not_merge a ->
     exists h' r, f_act K V cmp eqv a h = Ok (h', r) /\ finv h' /\
